@@ -437,3 +437,50 @@ func ruleCorsAlwaysOnServed(c *Ctx, rule string) {
 		o.Path = c.P.PathString(path)
 	}
 }
+
+// ruleSummaryIsNotLiveness: the method summary is never compared with zero to decide whether a node is live
+// (it carries the TRACE bit for an emptied node); liveness is the handler count.
+func ruleSummaryIsNotLiveness(c *Ctx, rule string) {
+	a := c.A
+	c.R.Rule(c.R.Property+"."+rule, 0, "whether a pattern is live is decided by its handler count, never by its method summary")
+	for _, f := range c.libFuncs() {
+		if f == a.NodeSummaryBuilder || f == a.TreeSummaryBuilder {
+			continue
+		}
+		an.AllInstrs(f, func(in ssa.Instruction) {
+			bo, ok := in.(*ssa.BinOp)
+			if !ok {
+				return
+			}
+			switch bo.Op {
+			case token.GTR, token.EQL, token.NEQ, token.LSS, token.GEQ, token.LEQ:
+			default:
+				return
+			}
+			isSummary := func(v ssa.Value) bool {
+				_, ok := fieldLoadOf(v, a.NodeT, a.FSummary)
+				return ok
+			}
+			isZero := func(v ssa.Value) bool {
+				k, ok := v.(*ssa.Const)
+				return ok && k.Value != nil && k.Value.Kind() == constant.Int && k.Int64() == 0
+			}
+			if (isSummary(bo.X) && isZero(bo.Y)) || (isSummary(bo.Y) && isZero(bo.X)) {
+				c.R.Add(rule, c.fk(f), "summary-compared-with-zero", c.pos(in), false, "the method summary is compared with zero to decide whether a node is live: with a TRACE handler configured it is non-zero for a node whose handlers were all removed, so a removed pattern is treated as registered")
+			}
+		})
+	}
+}
+
+// ruleLocksSurviveRecovery (C16.R5): a lock held while user code runs is released by a defer, so a recovered panic does not leave it held.
+func ruleLocksSurviveRecovery(c *Ctx, rule string) {
+	sub := an.NewReport(c.R.Property)
+	cc := &Ctx{P: c.P, A: c.A, R: sub, O: c.O}
+	ruleLockset(cc, "X1", "X2")
+	c.R.Rule(c.R.Property+"."+rule, 5, "after a recovered panic later requests are served normally: no lock stays held")
+	for _, o := range sub.Obls {
+		if strings.HasSuffix(o.Rule, ".X2") && (strings.Contains(o.Construct, "released-by") || strings.Contains(o.Construct, "deferred-release")) {
+			c.R.Add(rule, o.Func, o.Construct, o.At, o.OK, o.Msg)
+		}
+	}
+}
